@@ -381,6 +381,12 @@ class ExprCanon(ast.NodeTransformer):
                     parts = [_SubstNames(dict(zip(names, r))).visit(copy.deepcopy(elt)) for r in rows]
                     new = parts[0] if len(parts) == 1 else _loc(ast.BoolOp(op=ast.Or() if f0.id == "any" else ast.And(), values=parts), node)
                     return self.visit(ast.fix_missing_locations(new))
+        # partial(f, a, k=b)(x) -> f(a, x, k=b)
+        if _is_partial(f0) and not any(k.arg is not None and k.arg in {q.arg for q in f0.keywords} for k in node.keywords):
+            node.args = list(f0.args[1:]) + list(node.args)
+            node.keywords = list(f0.keywords) + list(node.keywords)
+            node.func = f0.args[0]
+            f0 = node.func
         # struct.unpack(..) -> unpack(..);  Struct(F).unpack(X) -> unpack(F, X)  (same for pack / unpack_from / pack_into / calcsize)
         if isinstance(f0, ast.Attribute) and f0.attr in ("pack", "unpack", "unpack_from", "pack_into", "iter_unpack"):
             v = f0.value
@@ -1158,6 +1164,147 @@ def _strip_tail_continue(stmts):
     return stmts
 
 
+def _is_partial(e):
+    return isinstance(e, ast.Call) and ((isinstance(e.func, ast.Name) and e.func.id == "partial") or (isinstance(e.func, ast.Attribute) and e.func.attr == "partial" and isinstance(e.func.value, ast.Name) and e.func.value.id == "functools")) and e.args and not any(isinstance(a, ast.Starred) for a in e.args) and not any(k.arg is None for k in e.keywords)
+
+
+def _apply_local_partials(fnode):
+    """`g = partial(f, a, k=b)` assigned once to a local that is only ever called: `g(x)` is `f(a, x, k=b)`.  The bound
+    arguments are names, constants and attribute chains of names that are not rebound in the function (a partial
+    object evaluates them once, the rewritten call every time)."""
+    pm = {}
+    for n in ast.walk(fnode):
+        for c in ast.iter_child_nodes(n):
+            pm[id(c)] = n
+    occ = {}
+    stored = {}
+    for n in ast.walk(fnode):
+        if isinstance(n, ast.Name):
+            occ.setdefault(n.id, []).append(n)
+            if isinstance(n.ctx, (ast.Store, ast.Del)):
+                stored[n.id] = stored.get(n.id, 0) + 1
+    params = {a.arg for a in ast.walk(fnode.args) if isinstance(a, ast.arg)}
+    changed = False
+    for name, nodes in occ.items():
+        st = [n for n in nodes if isinstance(n.ctx, (ast.Store, ast.Del))]
+        if len(st) != 1 or name in params:
+            continue
+        asg = pm.get(id(st[0]))
+        if not (isinstance(asg, ast.Assign) and len(asg.targets) == 1 and asg.targets[0] is st[0] and _is_partial(asg.value)):
+            continue
+        p = asg.value
+        bound = list(p.args) + [k.value for k in p.keywords]
+        if not all(_atomic_row(x) for x in bound):
+            continue
+        used = {x.id for b_ in bound for x in ast.walk(b_) if isinstance(x, ast.Name)}
+        if any(stored.get(u, 0) > (0 if u in params else 1) for u in used) or any(stored.get(u, 0) and u in params for u in used):
+            continue
+        loads = [n for n in nodes if isinstance(n.ctx, ast.Load)]
+        if not loads or any(not (isinstance(pm.get(id(n)), ast.Call) and pm[id(n)].func is n) for n in loads):
+            continue
+        if any(isinstance(x, (ast.FunctionDef, ast.AsyncFunctionDef, ast.Lambda)) and x is not fnode and any(isinstance(y, ast.Name) and y.id == name for y in ast.walk(x)) for x in ast.walk(fnode)):
+            continue
+        # the definition must come before every call in its own block (straight-line or enclosing)
+        for n in loads:
+            c = pm[id(n)]
+            if any(k.arg is not None and k.arg in {q.arg for q in p.keywords} for k in c.keywords):
+                break
+        else:
+            for n in loads:
+                c = pm[id(n)]
+                c.func = copy.deepcopy(p.args[0])
+                c.args = [copy.deepcopy(x) for x in p.args[1:]] + list(c.args)
+                c.keywords = [copy.deepcopy(k) for k in p.keywords] + list(c.keywords)
+            gp = pm.get(id(asg))
+            for f_ in ("body", "orelse", "finalbody"):
+                lst = getattr(gp, f_, None)
+                if isinstance(lst, list) and any(x is asg for x in lst):
+                    lst[:] = [x for x in lst if x is not asg] or [_loc(ast.Pass(), asg)]
+            changed = True
+    if changed:
+        ast.fix_missing_locations(fnode)
+    return changed
+
+
+def _scalarise_local_tuples(fnode):
+    """a local that only ever holds tuple displays of one length and is only read as `t[<constant index>]` is that
+    many locals:  t = (a, b); .. t[0] .. t[1]  ->  t__0 = a; t__1 = b; .. t__0 .. t__1"""
+    from .refnorm import local_names
+
+    params = {a.arg for a in ast.walk(fnode.args) if isinstance(a, ast.arg)}
+    pm = {}
+    for n in ast.walk(fnode):
+        for c in ast.iter_child_nodes(n):
+            pm[id(c)] = n
+    occ = {}
+    for n in ast.walk(fnode):
+        if isinstance(n, ast.Name):
+            occ.setdefault(n.id, []).append(n)
+    captured = set()
+    for n in ast.walk(fnode):
+        if isinstance(n, (ast.FunctionDef, ast.AsyncFunctionDef, ast.Lambda)) and n is not fnode:
+            captured |= {x.id for x in ast.walk(n) if isinstance(x, ast.Name)}
+    existing = set(occ) | params
+    changed = False
+    for name, nodes in occ.items():
+        if name in params or name in captured:
+            continue
+        arity = None
+        ok = True
+        stores = []
+        for n in nodes:
+            par = pm.get(id(n))
+            if isinstance(n.ctx, ast.Store):
+                if isinstance(par, ast.Assign) and len(par.targets) == 1 and par.targets[0] is n and isinstance(par.value, ast.Tuple) and not any(isinstance(e, ast.Starred) for e in par.value.elts) and not any(isinstance(x, ast.Name) and x.id == name for x in ast.walk(par.value)):
+                    k = len(par.value.elts)
+                    if arity not in (None, k):
+                        ok = False
+                    arity = k
+                    stores.append(par)
+                else:
+                    ok = False
+            elif isinstance(n.ctx, ast.Load):
+                if not (isinstance(par, ast.Subscript) and par.value is n and isinstance(par.ctx, ast.Load) and isinstance(par.slice, ast.Constant) and isinstance(par.slice.value, int) and not isinstance(par.slice.value, bool)):
+                    ok = False
+            else:
+                ok = False
+        if not ok or not stores or arity is None or arity < 1:
+            continue
+        if any(not (0 <= pm[id(n)].slice.value < arity) for n in nodes if isinstance(n.ctx, ast.Load)):
+            continue
+        new_names = [f"{name}__{i}" for i in range(arity)]
+        if set(new_names) & existing:
+            continue
+        # loads
+        for n in nodes:
+            if isinstance(n.ctx, ast.Load):
+                sub = pm[id(n)]
+                repl = _loc(ast.Name(id=new_names[sub.slice.value], ctx=ast.Load()), sub)
+                gp = pm.get(id(sub))
+                for f_, v in ast.iter_fields(gp):
+                    if v is sub:
+                        setattr(gp, f_, repl)
+                    elif isinstance(v, list):
+                        for j, y in enumerate(v):
+                            if y is sub:
+                                v[j] = repl
+                pm[id(repl)] = gp
+        # stores
+        for st in stores:
+            gp = pm.get(id(st))
+            seq = [_loc(ast.Assign(targets=[_loc(ast.Name(id=nn, ctx=ast.Store()), st)], value=e), st) for nn, e in zip(new_names, st.value.elts)]
+            for f_ in ("body", "orelse", "finalbody"):
+                lst = getattr(gp, f_, None)
+                if isinstance(lst, list) and any(x is st for x in lst):
+                    i = next(k for k, x in enumerate(lst) if x is st)
+                    lst[i:i + 1] = seq
+        existing |= set(new_names)
+        changed = True
+    if changed:
+        ast.fix_missing_locations(fnode)
+    return changed
+
+
 def _reuse_bound_subscripts(fnode):
     """after `V = B['k']` (B a plain name, 'k' a string literal) a later `B['k']` in the rest of the block is `V`,
     provided neither V nor B is rebound and no `B[...]` is stored or deleted in that rest"""
@@ -1597,6 +1744,10 @@ def _canon_stmt(s):
         s.body = canon_block(s.body)
         if not _returns_value(s):
             s.body = canon_block(_strip_tail_returns(s.body))
+        if _apply_local_partials(s):
+            s.body = canon_block(s.body)
+        if _scalarise_local_tuples(s):
+            s.body = canon_block(s.body)
         if _reuse_bound_subscripts(s):
             s.body = canon_block(s.body)
         if _inline_single_use(s):
